@@ -227,10 +227,20 @@ def _fr(f) -> str:
     return "F" + out.getvalue().hex()
 
 
-def run_step(cls: str, o: Opts, ops: list[tuple]) -> str:
-    """ops: ('enroll',) ('flush',) ('t', stmt) ('q', stmt) ('g', gid, triples) ('ns', name, iri)."""
+def run_step(cls: str, o: Opts, ops: list[tuple], integration: str = "generic") -> str:
+    """ops: ('enroll',) ('flush',) ('t', stmt) ('q', stmt) ('g', gid, triples) ('ns', name, iri).
+    integration='rdflib': the stream is built with for_rdflib and fed rdflib terms (RDF 1.1 terms only)."""
     try:
-        stream, _ = make_stream(cls, o)
+        if integration == "rdflib":
+            import rimpl
+            from common import UNSUPPORTED
+
+            stream, _ = rimpl.make_stream(cls, o)
+            conv = lambda t: t if t is UNSUPPORTED else rimpl.to_rdflib(t)  # noqa: E731
+            ops = [(op[0], tuple(conv(t) for t in op[1])) if op[0] in ("t", "q")
+                   else (op[0], conv(op[1]), [tuple(conv(t) for t in st) for st in op[2]]) if op[0] == "g" else op for op in ops]
+        else:
+            stream, _ = make_stream(cls, o)
     except Exception as e:  # noqa: BLE001
         return "!" + err_name(e)
     out = []
